@@ -73,6 +73,10 @@ package keeper
 //@       && old(forall h int :: 0 <= h && h <= MaxUint64 && has(ExpiredData, h) && contains(ExpiredData[h].Data, meta.DataId) ==> h == u64(meta.CreatedAt + meta.Duration))
 //@       ==> forall c string, h int, i int, j int :: 0 <= h && h <= MaxUint64 && has(ExpiredData, h) && 0 <= i && i < j && j < len(ExpiredData[h].Data) ==> !(ExpiredData[h].Data[i] == c && ExpiredData[h].Data[j] == c)
 //@   ensures [C11.reset.nowrap] meta.CreatedAt + meta.Duration <= MaxUint64 && meta.CreatedAt + meta.Duration >= meta.CreatedAt
+//@   ensures [C11.reset.sched.unique] old(forall h int :: 0 <= h && h <= MaxUint64 && has(ExpiredData, h) && contains(ExpiredData[h].Data, meta.DataId) ==> h == u64(meta.CreatedAt + meta.Duration))
+//@       ==> forall h int :: 0 <= h && h <= MaxUint64 && has(ExpiredData, h) && contains(ExpiredData[h].Data, meta.DataId) ==> h == u64(meta.CreatedAt + meta.Duration)
+//@   ensures [C11.reset.sched.present] old(has(ExpiredData, u64(meta.CreatedAt + meta.Duration)) && contains(ExpiredData[u64(meta.CreatedAt + meta.Duration)].Data, meta.DataId))
+//@       ==> has(ExpiredData, u64(meta.CreatedAt + meta.Duration)) && contains(ExpiredData[u64(meta.CreatedAt + meta.Duration)].Data, meta.DataId)
 //@   loop L1 invariant -1 <= rangeindex
 //@   loop L2 invariant -1 <= rangeindex
 //@   loop L3 invariant -1 <= rangeindex
@@ -92,6 +96,11 @@ package keeper
 //@   ensures [C05.rollback.restore.c] old(has(Metadata, dataId)) && len(old(Metadata[dataId].Commits)) > 0 && len(old(Metadata[dataId].Orders)) > 0 ==> Metadata[dataId].OrderId == old(Metadata[dataId].Orders)[len(old(Metadata[dataId].Orders)) - 1]
 //@   ensures [C05.rollback.restore.d] old(has(Metadata, dataId)) && len(old(Metadata[dataId].Commits)) > 0 && len(old(Metadata[dataId].Orders)) > 0 ==> Metadata[dataId].Commits == old(Metadata[dataId].Commits) && Metadata[dataId].Orders == old(Metadata[dataId].Orders)
 //@   ensures [C05.rollback.restore.e] old(has(Metadata, dataId)) && len(old(Metadata[dataId].Commits)) > 0 && len(old(Metadata[dataId].Orders)) > 0 ==> Metadata[dataId].Owner == old(Metadata[dataId].Owner) && Metadata[dataId].DataId == dataId && Metadata[dataId].ReadonlyDids == old(Metadata[dataId].ReadonlyDids) && Metadata[dataId].ReadwriteDids == old(Metadata[dataId].ReadwriteDids)
+//@   ensures [C11.rollback.sched] old(has(Metadata, dataId)) && len(old(Metadata[dataId].Commits)) > 0 && len(old(Metadata[dataId].Orders)) > 0 ==>
+//@       forall h int :: 0 <= h && h <= MaxUint64 && has(ExpiredData, h) && contains(ExpiredData[h].Data, dataId) ==> h == u64(Metadata[dataId].CreatedAt + Metadata[dataId].Duration)
+//@   ensures [C11.rollback.sched.present] old(has(Metadata, dataId)) && len(old(Metadata[dataId].Commits)) > 0 && len(old(Metadata[dataId].Orders)) > 0
+//@       && old(has(ExpiredData, u64(Metadata[dataId].CreatedAt + Metadata[dataId].Duration)) && contains(ExpiredData[u64(Metadata[dataId].CreatedAt + Metadata[dataId].Duration)].Data, dataId)) ==>
+//@       has(ExpiredData, u64(Metadata[dataId].CreatedAt + Metadata[dataId].Duration)) && contains(ExpiredData[u64(Metadata[dataId].CreatedAt + Metadata[dataId].Duration)].Data, dataId)
 //@   ensures [C05.rollback.remove] old(has(Metadata, dataId)) && len(old(Metadata[dataId].Commits)) == 0 ==> !has(Metadata, dataId)
 //@       && !has(Model, sprintf("%s-%s-%s", old(Metadata[dataId].Owner), old(Metadata[dataId].Alias), old(Metadata[dataId].GroupId)))
 //@   ensures [C05.rollback.unschedule] old(has(Metadata, dataId)) && len(old(Metadata[dataId].Commits)) == 0 ==>
